@@ -6,6 +6,7 @@ import Mutiny.Model.Stack
 import Mutiny.Model.Wake
 import Mutiny.Model.Multi
 import Mutiny.Model.MmapLog
+import Mutiny.Model.Exec
 /-! Uniform interface of the executable models for the replay driver. -/
 namespace Driver
 
@@ -305,6 +306,44 @@ def mmapMachine : Machine MmapLog.St where
   describe s t := reprStr (s.thr t) ++ s!" pubTail={s.pubTail} consTail={s.consTail} subs={reprStr s.subs}"
   cmpVal tag := tag != "mm.p.fetch" && tag != "mm.s.load" && tag != "mm.c.fetch"
 
+/-! ### M10+M11 Exec — history level: every observed event must be a step of the event machine -/
+structure ExecD where
+  cfg : Mutiny.Exec.Cfg
+  s : Mutiny.Exec.St
+  counts : Option Mutiny.Exec.Counts
+
+open Mutiny in
+def execMachine : Machine ExecD where
+  call d _ op args :=
+    let evStep (e : Exec.Ev) : Option ExecD := (Exec.stepEv d.cfg d.s e).map fun s' => { d with s := s' }
+    match op, args with
+    | "accepted", [i] => evStep (.accepted i.toNat!)
+    | "yielded", [i]  => evStep (.yielded i.toNat!)
+    | "finished", [i] => evStep (.finished i.toNat!)
+    | "closecalled", [] => evStep .closeCalled
+    | "closereturned", [] => evStep .closeReturned
+    | "callback", [] => evStep .callback
+    | "account", [v, to, letters] =>
+        let variant := match v with
+          | "futfallible" => Exec.Variant.futFallible
+          | "fut" => .fut
+          | "fallible" => .fallible
+          | _ => .plain
+        let items := (if letters == "-" then [] else letters.toList).map fun c =>
+          if c == 'o' then Exec.Outcome.ok else if c == 'e' then .err else if c == 's' then .slow else .slowErr
+        some { d with counts := some (Exec.account variant (to == "1") items) }
+    | _, _ => none
+  tag _ _ := none
+  step d _ := d
+  result _ _ := none
+  ack d _ := d
+  observe d k := match k, d.counts with
+    | "counts", some c => some s!"{c.ok} {c.failed} {c.timedOut} {c.onErr}"
+    | "onerr", some c => some s!"{c.onErr}"
+    | _, _ => none
+  describe d _ := reprStr d.s
+  cmpVal _ := false
+
 def lookup (kv : List (String × String)) (k : String) : Option String :=
   (kv.find? (·.1 == k)).map (·.2)
 
@@ -315,6 +354,8 @@ def mkMachine (kv : List (String × String)) : Option AnyMachine :=
   | some "lockring" => some { σ := _, m := lockRingMachine, s := Mutiny.LockRing.init n }
   | some "incavg" => some { σ := _, m := incAvgMachine, s := Mutiny.IncAvg.init }
   | some "stack" => some { σ := _, m := stackMachine, s := Mutiny.Stack.init n }
+  | some "exec" =>
+      some { σ := _, m := execMachine, s := { cfg := { futures := (lookup kv "futures") == some "1", limit := ((lookup kv "limit").getD "1").toNat! }, s := {}, counts := none } }
   | some "mmaplog" => some { σ := _, m := mmapMachine, s := Mutiny.MmapLog.init }
   | some "multi" =>
       let mx := ((lookup kv "MAX").getD "1").toNat!
